@@ -18,6 +18,7 @@ import Goflow.Gen.C08
 import Goflow.Gen.C06
 import Goflow.Gen.C10
 import Goflow.Gen.Malformed
+import Goflow.Gen.C13
 /-!
   goflow-model: the executable side of the model.
     goflow-model run            ops on stdin → canonical blocks on stdout
@@ -27,10 +28,17 @@ open Goflow
 
 structure DState where
   stores : List (String × Netflow.Store) := []
-  cfgs : List (String × Producer.Config) := []
+  cfgs : List (String × Format.Compiled) := []
+  /-- the package-level isSliceMap of producer/proto: survives `reset`, mutated by every Compile -/
+  isSlice : List (String × Bool) := Format.initialIsSlice
   pipes : List (String × Pipe.Kind × String) := []
   pstate : List (String × Pipe.State) := []
   staged : List (String × Pipe.Src × Nat × Bytes) := []
+
+def DState.cfg (st : DState) (cid : String) : Producer.Config :=
+  match st.cfgs.lookup cid with | some c => c.cfg | none => {}
+def DState.fmt (st : DState) (cid : String) : Format.Fmt :=
+  match st.cfgs.lookup cid with | some c => c.fmt | none => (Format.compileNil st.isSlice).fmt
 
 def DState.store (st : DState) (sid : String) : Netflow.Store := (st.stores.lookup sid).getD []
 def DState.setStore (st : DState) (sid : String) (s : Netflow.Store) : DState :=
@@ -63,7 +71,7 @@ def execCall (st : DState) (args : List String) : DState × List String :=
     match parseHex hex with
     | none => (st, ["bad-op"])
     | some d =>
-      match Producer.parsePacket ((st.cfgs.lookup cid).getD {}) FlowMsg.empty d with
+      match Producer.parsePacket (st.cfg cid) FlowMsg.empty d with
       | .ok m => (st, ["res ok", m.dump])
       | .error e => (st, [resLine e])
   | ["nf", sid, hex] =>
@@ -85,8 +93,39 @@ def execOp (st : DState) (line : String) : DState × Option (List String) :=
   | "#" :: _ => (st, none)
   | "expect" :: _ => (st, none)
   | "call" :: args => let (s, o) := execCall st args; (s, some o)
-  | ["reset"] => ({ cfgs := st.cfgs }, some ["res ok"])
-  | ["cfg", cid, "none"] => ({ st with cfgs := (cid, ({} : Producer.Config)) :: st.cfgs.filter (fun e => e.1 != cid) }, some ["res ok"])
+  | ["reset"] => ({ cfgs := st.cfgs, isSlice := st.isSlice }, some ["res ok"])
+  | ["cfg", cid, "none"] =>
+    ({ st with cfgs := (cid, Format.compileNil st.isSlice) :: st.cfgs.filter (fun e => e.1 != cid) }, some ["res ok"])
+  | ["cfg", cid, _, twin] =>
+    match Format.parseTwin twin with
+    | none => (st, some ["bad-op"])
+    | some raw =>
+      let isSlice' := Format.isSliceAfter raw st.isSlice
+      match Format.compile raw st.isSlice with
+      | .ok c =>
+        -- every formatter shares the one package-level map: give all of them the new contents
+        let cfgs := (cid, c) :: st.cfgs.filter (fun e => e.1 != cid)
+        let cfgs := cfgs.map fun (k, c) => (k, { c with fmt := { c.fmt with isSlice := isSlice' } })
+        ({ st with cfgs := cfgs, isSlice := isSlice' }, some ["twin " ++ Format.renderTwin raw, "res ok"])
+      | .error _ =>
+        let cfgs := st.cfgs.map fun (k, c) => (k, { c with fmt := { c.fmt with isSlice := isSlice' } })
+        ({ st with cfgs := cfgs, isSlice := isSlice' }, some ["twin " ++ Format.renderTwin raw, "res err"])
+  | "fmt" :: cid :: toks =>
+    match Format.parseMsg toks with
+    | none => (st, some ["bad-op"])
+    | some m => (st, some ("res ok" :: Format.fmtLines (st.fmt cid) m))
+  | ["pktf", pid, iphex, port, recv, hex] =>
+    match st.pipes.lookup pid, parseHex iphex, parseHex hex with
+    | some (k, cid), some ip, some d =>
+      let cfg := st.cfg cid
+      let ps := (st.pstate.lookup pid).getD {}
+      let o := Pipe.decodeFlow k cfg ps ⟨ip, port.toNat!⟩ recv.toNat! d
+      let st' := { st with pstate := (pid, o.state) :: st.pstate.filter (fun e => e.1 != pid) }
+      let r := match o.err with
+        | none => "res ok"
+        | some e => resLine e
+      (st', some ((r ++ " n=" ++ toString o.msgs.length) :: o.msgs.flatMap fun m => m.dump :: Format.fmtLines (st.fmt cid) m))
+    | _, _, _ => (st, some ["bad-op"])
   | ["pipe", pid, kind, cid] =>
     let k : Option Pipe.Kind := match kind with
       | "netflow" => some .netflow | "sflow" => some .sflow | "flow" => some .auto | _ => none
@@ -130,7 +169,7 @@ def execOp (st : DState) (line : String) : DState × Option (List String) :=
         match st.pipes.lookup pid with
         | none => go st rest (i + 1) (acc ++ ["d " ++ toString i ++ " bad-op"])
         | some (k, cid) =>
-          let cfg := (st.cfgs.lookup cid).getD {}
+          let cfg := st.cfg cid
           let ps := (st.pstate.lookup pid).getD {}
           let o := Pipe.decodeFlow k cfg ps src recv d
           let st' := { st with pstate := (pid, o.state) :: st.pstate.filter (fun e => e.1 != pid) }
@@ -145,7 +184,7 @@ def execOp (st : DState) (line : String) : DState × Option (List String) :=
     -- same transition as `pkt`; the budget verdict of the model is `ok` (Proofs/C02.lean bounds every make and object count)
     match st.pipes.lookup pid, parseHex iphex, parseHex hex with
     | some (k, cid), some ip, some d =>
-      let cfg := (st.cfgs.lookup cid).getD {}
+      let cfg := st.cfg cid
       let ps := (st.pstate.lookup pid).getD {}
       let o := Pipe.decodeFlow k cfg ps ⟨ip, port.toNat!⟩ recv.toNat! d
       let st' := { st with pstate := (pid, o.state) :: st.pstate.filter (fun e => e.1 != pid) }
@@ -158,7 +197,7 @@ def execOp (st : DState) (line : String) : DState × Option (List String) :=
   | ["pkt", pid, iphex, port, recv, hex] =>
     match st.pipes.lookup pid, parseHex iphex, parseHex hex with
     | some (k, cid), some ip, some d =>
-      let cfg := (st.cfgs.lookup cid).getD {}
+      let cfg := st.cfg cid
       let ps := (st.pstate.lookup pid).getD {}
       let o := Pipe.decodeFlow k cfg ps ⟨ip, port.toNat!⟩ recv.toNat! d
       let st' := { st with pstate := (pid, o.state) :: st.pstate.filter (fun e => e.1 != pid) }
@@ -201,6 +240,7 @@ def genOps (prop : String) (seed n : Nat) : List String :=
   | "C08" => Gen.run seed (Gen.C08.gen n)
   | "C06" => Gen.run seed (Gen.C06.gen n)
   | "C10" => Gen.run seed (Gen.C10.gen n)
+  | "C13" => Gen.run seed (Gen.C13.gen n)
   | _ => []
 
 def main (args : List String) : IO UInt32 := do
